@@ -20,7 +20,7 @@ EXTENDS LinkedDict, TraceLib
 VARIABLE l
 tvars == <<vars, l>>
 
-TraceInit == InitWith([set |-> FALSE, none |-> <<>>, rej |-> FALSE, ek |-> 0]) /\ l = 1 /\ HwmInit
+TraceInit == InitWith([set |-> FALSE, none |-> <<>>, none0 |-> <<>>, rej |-> FALSE, ek |-> 0]) /\ l = 1 /\ HwmInit
 
 Step(n) == IsEv(l, n) /\ l' = l + 1
 e == Trace[l]
@@ -32,7 +32,7 @@ Obs == /\ Has(e, "size") /\ e.size = Len(ord')
 
 TraceReset == /\ Step("Reset")
               /\ ord' = <<>> /\ val' = EmptyFn /\ max' = 0
-              /\ cfg' = [set |-> e.set, none |-> e.none, rej |-> e.rej, ek |-> e.ek]
+              /\ cfg' = [set |-> e.set, none |-> e.none, none0 |-> e.none, rej |-> e.rej, ek |-> e.ek]
               /\ Obs
 
 \* insertion family: arguments k, v; result ret
@@ -55,11 +55,14 @@ TraceGetLRU == Step("GetLRU") /\ Has(e, "ret") /\ GetLRU(e.k) /\ e.ret = Lookup(
 TraceContainsKey == Step("ContainsKey") /\ Has(e, "b") /\ e.b = Present(e.k) /\ UNCHANGED vars /\ Obs
 TraceContainsValue == Step("ContainsValue") /\ Has(e, "b") /\ e.b = HasValue(e.v) /\ UNCHANGED vars /\ Obs
 TraceRemove == Step("Remove") /\ Has(e, "ret") /\ Remove(e.k) /\ e.ret = Lookup(e.k) /\ Obs
-TraceRemoveFirst == Step("RemoveFirst") /\ Has(e, "ret") /\ RemoveFirst /\ e.ret = RemoveFirstRet /\ Obs
-TraceRemoveLast == Step("RemoveLast") /\ Has(e, "ret") /\ RemoveLast /\ e.ret = RemoveLastRet /\ Obs
+TraceRemoveFirst == Step("RemoveFirst") /\ Has(e, "ret") /\ RemoveFirst /\ FirstValOK(e.ret) /\ Obs
+TraceRemoveLast == Step("RemoveLast") /\ Has(e, "ret") /\ RemoveLast /\ LastValOK(e.ret) /\ Obs
 TraceClear == Step("Clear") /\ Clear /\ Obs
 TraceSort == Step("Sort") /\ Has(e, "dir") /\ Sort(e.dir) /\ Obs
 TraceSetMax == Step("SetMax") /\ Has(e, "n") /\ SetMax(e.n) /\ Obs
+TraceSetNullValue == Step("SetNullValue") /\ Has(e, "n") /\ SetNone(e.n) /\ Obs
+\* StringLinkedSet.Unipoint: a plain put that answers the key itself
+TraceUnipoint == Step("Unipoint") /\ Has(e, "k") /\ Has(e, "rk") /\ Put(e.k, 0) /\ e.rk = e.k /\ Obs
 
 \* first/last accessors: pinned when the structure is not empty; on an empty one
 \* the key accessor answers a type-specific filler, the value accessor "absent"
@@ -68,21 +71,32 @@ TraceGetFirstKey == /\ Step("GetFirstKey") /\ Has(e, "rk") /\ UNCHANGED vars /\ 
 TraceGetLastKey == /\ Step("GetLastKey") /\ Has(e, "rk") /\ UNCHANGED vars /\ Obs
                    /\ Len(ord) > 0 => e.rk = LastKey
 TraceGetFirstValue == /\ Step("GetFirstValue") /\ Has(e, "ret") /\ UNCHANGED vars /\ Obs
-                      /\ e.ret = IF Len(ord) > 0 THEN <<val[FirstKey]>> ELSE cfg.none
+                      /\ FirstValOK(e.ret)
 TraceGetLastValue == /\ Step("GetLastValue") /\ Has(e, "ret") /\ UNCHANGED vars /\ Obs
-                     /\ e.ret = IF Len(ord) > 0 THEN <<val[LastKey]>> ELSE cfg.none
+                     /\ LastValOK(e.ret)
 
 TraceIsEmpty == Step("IsEmpty") /\ Has(e, "b") /\ e.b = (Len(ord) = 0) /\ UNCHANGED vars /\ Obs
 TraceIsFull == Step("IsFull") /\ Has(e, "b") /\ e.b = IsFull /\ UNCHANGED vars /\ Obs
 
 \* rendering: must return (no panic, no self-deadlock) and leave the structure alone
 TraceToString == Step("ToString") /\ Has(e, "len") /\ e.len >= 2 /\ UNCHANGED vars /\ Obs
+TraceToFormatString == Step("ToFormatString") /\ Has(e, "len") /\ e.len >= 2 /\ UNCHANGED vars /\ Obs
 
 \* enumerations in iteration order
 TraceKeys == Step("Keys") /\ Has(e, "seq") /\ e.seq = KeysSeq /\ UNCHANGED vars /\ Obs
 TraceKeyArray == Step("KeyArray") /\ Has(e, "seq") /\ e.seq = KeysSeq /\ UNCHANGED vars /\ Obs
 TraceValues == Step("Values") /\ Has(e, "seq") /\ e.seq = ValuesSeq /\ UNCHANGED vars /\ Obs
 TraceEntries == Step("Entries") /\ Has(e, "pairs") /\ e.pairs = EntriesSeq /\ UNCHANGED vars /\ Obs
+\* IntKeyLinkedMap: the values through ValueIterator, the keys as a linked set
+\* (keeps the order) and as a list standing for an unordered set (any order)
+TraceValueIterator == Step("ValueIterator") /\ Has(e, "seq") /\ e.seq = ValuesSeq /\ UNCHANGED vars /\ Obs
+TraceGetKeySet == Step("GetKeySet") /\ Has(e, "seq") /\ e.seq = KeysSeq /\ UNCHANGED vars /\ Obs
+TraceToKeySet == /\ Step("ToKeySet") /\ Has(e, "seq") /\ UNCHANGED vars /\ Obs
+                 /\ Len(e.seq) = Len(ord) /\ Range(e.seq) = Range(ord)
+\* serialisation of the number-valued maps: the entries in iteration order, both
+\* as decoded from the bytes written and as read back by ToObject into a new map
+TraceToBytes == /\ Step("ToBytes") /\ Has(e, "pairs") /\ Has(e, "copy") /\ UNCHANGED vars /\ Obs
+                /\ e.pairs = EntriesSeq /\ e.copy = EntriesSeq
 TraceProj == /\ Step("Proj") /\ Has(e, "keys") /\ Has(e, "vals")
              /\ e.keys = KeysSeq /\ e.vals = ValuesSeq
              /\ UNCHANGED vars /\ Obs
@@ -93,9 +107,10 @@ TraceNext ==
     \/ TraceAdd \/ TraceAddFirst \/ TraceAddLast \/ TraceAddNoOver
     \/ TraceGet \/ TraceGetLRU \/ TraceContainsKey \/ TraceContainsValue
     \/ TraceRemove \/ TraceRemoveFirst \/ TraceRemoveLast \/ TraceClear
-    \/ TraceSort \/ TraceSetMax
+    \/ TraceSort \/ TraceSetMax \/ TraceSetNullValue \/ TraceUnipoint
     \/ TraceGetFirstKey \/ TraceGetLastKey \/ TraceGetFirstValue \/ TraceGetLastValue
-    \/ TraceIsEmpty \/ TraceIsFull \/ TraceToString
+    \/ TraceIsEmpty \/ TraceIsFull \/ TraceToString \/ TraceToFormatString
+    \/ TraceValueIterator \/ TraceGetKeySet \/ TraceToKeySet \/ TraceToBytes
     \/ TraceKeys \/ TraceKeyArray \/ TraceValues \/ TraceEntries \/ TraceProj )
   /\ InvAll'
 
